@@ -224,6 +224,11 @@ pub trait Engine: Sync {
     fn execute(&self, case: &Self::Case, stats: &mut Stats) -> Vec<Violation>;
     /// Simpler variants of a failing case (tried in order).
     fn shrink(&self, case: &Self::Case) -> Vec<Self::Case>;
+    /// Facts about the case that identify a panic more narrowly than its location (added to
+    /// the signature of the `C25.no-panic` violation); default: none.
+    fn panic_facts(&self, _case: &Self::Case) -> Vec<(String, String)> {
+        Vec::new()
+    }
 }
 
 /// Generic list shrinking helper: candidates removing chunks, then single elements.
@@ -335,7 +340,11 @@ pub fn execute_guarded<E: Engine>(
         RunOutcome::Done(v) => Ok(v),
         RunOutcome::SutPanic { location, message } => {
             stats.inc("panics.sut");
-            Ok(vec![panic_violation(&location, &message)])
+            let mut v = panic_violation(&location, &message);
+            for (k, val) in engine.panic_facts(case) {
+                v.signature.insert(k, val);
+            }
+            Ok(vec![v])
         }
         RunOutcome::HarnessPanic { location, message } => {
             Err(format!("harness panic at {location}: {message}"))
